@@ -139,23 +139,55 @@ pub mod iter {
                     r@.items == #[trigger] flat(smap(self@.items, g)) && r@.endless == self@.endless,
         { unimplemented!() }
         #[verifier::external_body]
-        pub fn any<P: FnMut(T) -> bool>(&mut self, p: P) -> (r: bool) requires forall|t: T| call_requires(p, (t,)) { unimplemented!() }
+        pub fn any<P: FnMut(T) -> bool>(&mut self, p: P) -> (r: bool)
+            requires forall|t: T| call_requires(p, (t,)),
+            ensures
+                !old(self)@.endless && r ==> exists|i: int| 0 <= i < old(self)@.items.len() && call_ensures(p, (#[trigger] old(self)@.items[i],), true),
+                !old(self)@.endless && !r ==> forall|i: int| 0 <= i < old(self)@.items.len() ==> call_ensures(p, (#[trigger] old(self)@.items[i],), false),
+        { unimplemented!() }
         #[verifier::external_body]
-        pub fn all<P: FnMut(T) -> bool>(&mut self, p: P) -> (r: bool) requires forall|t: T| call_requires(p, (t,)) { unimplemented!() }
+        pub fn all<P: FnMut(T) -> bool>(&mut self, p: P) -> (r: bool)
+            requires forall|t: T| call_requires(p, (t,)),
+            ensures
+                !old(self)@.endless && r ==> forall|i: int| 0 <= i < old(self)@.items.len() ==> call_ensures(p, (#[trigger] old(self)@.items[i],), true),
+                !old(self)@.endless && !r ==> exists|i: int| 0 <= i < old(self)@.items.len() && call_ensures(p, (#[trigger] old(self)@.items[i],), false),
+        { unimplemented!() }
         #[verifier::external_body]
-        pub fn find<P: FnMut(&T) -> bool>(&mut self, p: P) -> (r: Option<T>) requires forall|t: &T| call_requires(p, (t,)) { unimplemented!() }
+        pub fn find<P: FnMut(&T) -> bool>(&mut self, p: P) -> (r: Option<T>)
+            requires forall|t: &T| call_requires(p, (t,)),
+            ensures
+                !old(self)@.endless && r is Some ==> exists|i: int| 0 <= i < old(self)@.items.len() && #[trigger] old(self)@.items[i] == r->Some_0
+                    && call_ensures(p, (&old(self)@.items[i],), true)
+                    && forall|j: int| 0 <= j < i ==> call_ensures(p, (&#[trigger] old(self)@.items[j],), false),
+                !old(self)@.endless && r is None ==> forall|i: int| 0 <= i < old(self)@.items.len() ==> call_ensures(p, (&#[trigger] old(self)@.items[i],), false),
+        { unimplemented!() }
         #[verifier::external_body]
-        pub fn last(self) -> (r: Option<T>) { unimplemented!() }
+        pub fn last(self) -> (r: Option<T>)
+            ensures !self@.endless ==> r == (if self@.items.len() > 0 { Some(self@.items.last()) } else { None::<T> })
+        { unimplemented!() }
         #[verifier::external_body]
-        pub fn count(self) -> (r: usize) { unimplemented!() }
+        pub fn count(self) -> (r: usize)
+            ensures !self@.endless ==> r == self@.items.len()
+        { unimplemented!() }
         #[verifier::external_body]
-        pub fn skip(self, n: usize) -> (r: Iter<T>) { unimplemented!() }
+        pub fn skip(self, n: usize) -> (r: Iter<T>)
+            ensures r@.endless == self@.endless,
+                !self@.endless ==> r@.items == (if n <= self@.items.len() { self@.items.skip(n as int) } else { Seq::<T>::empty() })
+        { unimplemented!() }
         #[verifier::external_body]
-        pub fn take(self, n: usize) -> (r: Iter<T>) { unimplemented!() }
+        pub fn take(self, n: usize) -> (r: Iter<T>)
+            ensures !r@.endless,
+                !self@.endless ==> r@.items == (if n <= self@.items.len() { self@.items.take(n as int) } else { self@.items })
+        { unimplemented!() }
         #[verifier::external_body]
-        pub fn chain(self, other: Iter<T>) -> (r: Iter<T>) { unimplemented!() }
+        pub fn chain(self, other: Iter<T>) -> (r: Iter<T>)
+            ensures !self@.endless ==> r@.items == self@.items + other@.items && r@.endless == other@.endless
+        { unimplemented!() }
         #[verifier::external_body]
-        pub fn enumerate(self) -> (r: Iter<(usize, T)>) { unimplemented!() }
+        pub fn enumerate(self) -> (r: Iter<(usize, T)>)
+            ensures r@.endless == self@.endless, r@.items.len() == self@.items.len(),
+                forall|i: int| 0 <= i < self@.items.len() ==> (#[trigger] r@.items[i]).0 == i && r@.items[i].1 == self@.items[i]
+        { unimplemented!() }
         #[verifier::external_body]
         pub fn for_each<F: FnMut(T)>(self, f: F) requires forall|t: T| call_requires(f, (t,)) { unimplemented!() }
         /// Iterator::next / StreamExt::next (after R2)
@@ -182,17 +214,36 @@ pub mod iter {
             ensures r is Some ==> exists|i: int| 0 <= i < self@.items.len() && self@.items[i] == r->Some_0
         { unimplemented!() }
         #[verifier::external_body]
-        pub fn nth(&mut self, n: usize) -> (r: Option<T>) { unimplemented!() }
+        pub fn nth(&mut self, n: usize) -> (r: Option<T>)
+            ensures !old(self)@.endless ==> r == (if n < old(self)@.items.len() { Some(old(self)@.items[n as int]) } else { None::<T> })
+                && final(self)@.items == (if n < old(self)@.items.len() { old(self)@.items.skip(n + 1) } else { Seq::<T>::empty() }) && !final(self)@.endless
+        { unimplemented!() }
         #[verifier::external_body]
-        pub fn position<P: FnMut(T) -> bool>(&mut self, p: P) -> (r: Option<usize>) requires forall|t: T| call_requires(p, (t,)) { unimplemented!() }
+        pub fn position<P: FnMut(T) -> bool>(&mut self, p: P) -> (r: Option<usize>)
+            requires forall|t: T| call_requires(p, (t,)),
+            ensures
+                !old(self)@.endless && r is Some ==> r->Some_0 < old(self)@.items.len() && call_ensures(p, (old(self)@.items[r->Some_0 as int],), true)
+                    && forall|j: int| 0 <= j < r->Some_0 ==> call_ensures(p, (#[trigger] old(self)@.items[j],), false),
+                !old(self)@.endless && r is None ==> forall|i: int| 0 <= i < old(self)@.items.len() ==> call_ensures(p, (#[trigger] old(self)@.items[i],), false),
+        { unimplemented!() }
         #[verifier::external_body]
-        pub fn find_map<U, F: FnMut(T) -> Option<U>>(&mut self, f: F) -> (r: Option<U>) requires forall|t: T| call_requires(f, (t,)) { unimplemented!() }
+        pub fn find_map<U, F: FnMut(T) -> Option<U>>(&mut self, f: F) -> (r: Option<U>)
+            requires forall|t: T| call_requires(f, (t,)),
+            ensures
+                !old(self)@.endless && r is Some ==> exists|i: int| 0 <= i < old(self)@.items.len() && call_ensures(f, (#[trigger] old(self)@.items[i],), r)
+                    && forall|j: int| 0 <= j < i ==> call_ensures(f, (#[trigger] old(self)@.items[j],), None::<U>),
+                !old(self)@.endless && r is None ==> forall|i: int| 0 <= i < old(self)@.items.len() ==> call_ensures(f, (#[trigger] old(self)@.items[i],), None::<U>),
+        { unimplemented!() }
         #[verifier::external_body]
         pub fn skip_while<P: FnMut(&T) -> bool>(self, p: P) -> (r: Iter<T>) requires forall|t: &T| call_requires(p, (t,)) { unimplemented!() }
         #[verifier::external_body]
         pub fn inspect<F: FnMut(&T)>(self, f: F) -> (r: Iter<T>) requires forall|t: &T| call_requires(f, (t,)) ensures r@ == self@ { unimplemented!() }
         #[verifier::external_body]
-        pub fn zip<U>(self, other: Iter<U>) -> (r: Iter<(T, U)>) { unimplemented!() }
+        pub fn zip<U>(self, other: Iter<U>) -> (r: Iter<(T, U)>)
+            ensures !self@.endless && !other@.endless ==> !r@.endless
+                && r@.items.len() == (if self@.items.len() <= other@.items.len() { self@.items.len() } else { other@.items.len() })
+                && forall|i: int| 0 <= i < r@.items.len() ==> (#[trigger] r@.items[i]).0 == self@.items[i] && r@.items[i].1 == other@.items[i]
+        { unimplemented!() }
         #[verifier::external_body]
         pub fn step_by(self, n: usize) -> (r: Iter<T>) { unimplemented!() }
         #[verifier::external_body]
